@@ -621,11 +621,194 @@ func ruleR30_4(c *Check) {
 	r.Check(okBw, lit, "new lease = stored value + bandwidth", nil, "lease no longer computed from the bandwidth")
 }
 
+// R30.5: the lease arithmetic, followed through the locals of updateLease and Release.
+func ruleR30_5(c *Check) {
+	w := c.W
+	r := c.Rule("R30.5", "E4+E5", 8, "lease arithmetic: updateLease publishes next = the stored lease (0 only when the key is not found) and leased = next + bandwidth, the very value it wrote with SetEntry; Release writes seq.next back only when the stored lease still equals this object's lease, and lowers seq.leased to seq.next only after that transaction committed; GetSequence refuses a zero bandwidth and is the only writer of Sequence.bandwidth",
+		"starting below the stored lease, or publishing a lease larger than the one written, hands out numbers that the next lease holder (or this key after a restart) hands out again; an unconditional Release lowers the stored lease below numbers another Sequence object has handed out; with bandwidth 0 Next returns the number at the lease boundary, which is not covered by any stored lease")
+	f := w.F("badger.Sequence.updateLease")
+	nextF, leasedF, bwF := w.Field("badger.Sequence.next"), w.Field("badger.Sequence.leased"), w.Field("badger.Sequence.bandwidth")
+	update := w.Func("badger.DB.Update")
+	updLit := func(g *Fn) *Fn {
+		for _, l := range g.Lits {
+			if call, ok := w.parentOf(l.Lit).(*ast.CallExpr); ok && w.Callee(call) == types.Object(update) {
+				return l
+			}
+		}
+		return nil
+	}
+	lit := updLit(f)
+	if lit == nil {
+		panic(anchorError{"db.Update closure of Sequence.updateLease"})
+	}
+	localOf := func(g *Fn, e ast.Expr) *types.Var {
+		if id, ok := unparen(e).(*ast.Ident); ok {
+			if v, ok := w.Use(id).(*types.Var); ok && !v.IsField() {
+				return v
+			}
+		}
+		return nil
+	}
+	// published values: seq.next, seq.leased = N, L
+	var N, L *types.Var
+	for _, s := range f.Sites(selStore(nextF, leasedF)) {
+		as, ok := s.(*ast.AssignStmt)
+		if !ok || len(as.Lhs) != len(as.Rhs) {
+			continue
+		}
+		for i, l := range as.Lhs {
+			switch w.fieldOf(l) {
+			case nextF:
+				N = localOf(f, as.Rhs[i])
+			case leasedF:
+				L = localOf(f, as.Rhs[i])
+			}
+		}
+	}
+	r.Check(N != nil && L != nil, f, "lease published from locals computed in the transaction", nil, "seq.next / seq.leased are not assigned from locals of updateLease")
+	if N == nil || L == nil {
+		return
+	}
+	isN := func(e ast.Expr) bool { return localOf(f, e) == N }
+	isDecoded := func(g *Fn, e ast.Expr) bool {
+		// binary.BigEndian.Uint64(v), possibly through a local assigned only that
+		e = unparen(e)
+		if v := localOf(g, e); v != nil {
+			n, ok := 0, true
+			for _, o := range g.Root().SitesDeep(selStoreVar(v)) {
+				as, isAs := o.Node.(*ast.AssignStmt)
+				if !isAs || len(as.Rhs) != 1 {
+					ok = false
+					continue
+				}
+				n++
+				call, isCall := unparen(as.Rhs[0]).(*ast.CallExpr)
+				if !isCall || w.Callee(call) == nil || w.Callee(call).Name() != "Uint64" {
+					ok = false
+				}
+			}
+			return ok && n >= 1
+		}
+		call, isCall := e.(*ast.CallExpr)
+		return isCall && w.Callee(call) != nil && w.Callee(call).Name() == "Uint64"
+	}
+	var k keyer
+	// stores to N inside the closure
+	nStores := 0
+	for _, o := range lit.SitesDeep(selStoreVar(N)) {
+		as, ok := o.Node.(*ast.AssignStmt)
+		if !ok || len(as.Rhs) != 1 {
+			continue
+		}
+		nStores++
+		if v, isC := w.constInt(as.Rhs[0]); isC {
+			nf := false
+			for _, g := range w.Guards(o.SiteFn, as) {
+				if eqOf(g, true, func(e ast.Expr) bool { id, ok := e.(*ast.Ident); return ok && w.Use(id) == w.Obj("badger.ErrKeyNotFound") }, func(ast.Expr) bool { return true }) {
+					nf = true
+				}
+			}
+			r.Check(v == 0 && nf, o.SiteFn, k.key("sequence starts at 0 only when no lease is stored", w, as), as, "next is set to a constant outside the ErrKeyNotFound case")
+			continue
+		}
+		r.Check(isDecoded(o.SiteFn, as.Rhs[0]), o.SiteFn, k.key("next = the stored lease", w, as), as, "next is assigned "+short(w, as.Rhs[0])+", not the decoded stored lease")
+	}
+	r.Exists(nStores >= 2, lit, "next taken from the store", nil, "expected the not-found and the stored-lease assignments of next")
+	// the written value and the published lease
+	isLease := func(g *Fn, e ast.Expr) bool {
+		be, ok := unparen(w.Origin(g, e)).(*ast.BinaryExpr)
+		if !ok || be.Op != token.ADD {
+			return false
+		}
+		return (isN(be.X) && w.fieldOf(be.Y) == bwF) || (isN(be.Y) && w.fieldOf(be.X) == bwF)
+	}
+	for _, o := range lit.SitesDeep(selStoreVar(L)) {
+		as, ok := o.Node.(*ast.AssignStmt)
+		if !ok || len(as.Rhs) != 1 {
+			continue
+		}
+		r.Check(isLease(o.SiteFn, as.Rhs[0]), o.SiteFn, k.key("published lease = next + bandwidth", w, as), as, "leased is assigned "+short(w, as.Rhs[0]))
+		// and it is assigned only after the SetEntry succeeded
+		if o.SiteFn == lit {
+			r.DomAll(lit, "lease published only after it was written", selNode(as), 0, selCallName(w, "badger.Txn.SetEntry"), 0)
+		}
+	}
+	put := 0
+	for _, s := range lit.Sites(selPred("PutUint64", func(w *World, fn *Fn, n ast.Node) bool {
+		call, ok := n.(*ast.CallExpr)
+		return ok && w.Callee(call) != nil && w.Callee(call).Name() == "PutUint64" && len(call.Args) == 2
+	})) {
+		put++
+		call := s.(*ast.CallExpr)
+		r.Check(isLease(lit, call.Args[1]), lit, "written lease = next + bandwidth", s, "the value written is "+short(w, call.Args[1]))
+	}
+	r.Exists(put == 1, lit, "lease encoded once", nil, "expected one PutUint64 in the lease transaction")
+	// Release
+	rel := w.F("badger.Sequence.Release")
+	rl := updLit(rel)
+	if rl == nil {
+		panic(anchorError{"db.Update closure of Sequence.Release"})
+	}
+	sets := rl.Sites(selCallName(w, "badger.Txn.SetEntry"))
+	r.Exists(len(sets) == 1, rl, "Release writes the lease back", nil, "expected one SetEntry in Release")
+	for _, s := range sets {
+		okEq := false
+		for _, g := range w.Guards(rl, s) {
+			if eqOf(g, true, func(e ast.Expr) bool { return isDecoded(rl, e) }, w.isField(leasedF)) {
+				okEq = true
+			}
+		}
+		r.Check(okEq, rl, "write-back only when the stored lease is still this object's lease", s, "SetEntry in Release is not guarded by stored == seq.leased")
+	}
+	for _, s := range rl.Sites(selPred("PutUint64", func(w *World, fn *Fn, n ast.Node) bool {
+		call, ok := n.(*ast.CallExpr)
+		return ok && w.Callee(call) != nil && w.Callee(call).Name() == "PutUint64" && len(call.Args) == 2
+	})) {
+		call := s.(*ast.CallExpr)
+		r.Check(w.fieldOf(w.Origin(rl, call.Args[1])) == nextF, rl, "Release writes back seq.next", s, "the value written is "+short(w, call.Args[1]))
+	}
+	for _, s := range rel.Sites(selStore(leasedF, nextF)) {
+		as, ok := s.(*ast.AssignStmt)
+		okv := ok && len(as.Lhs) == 1 && len(as.Rhs) == 1 && w.fieldOf(as.Lhs[0]) == leasedF && w.fieldOf(as.Rhs[0]) == nextF
+		r.Check(okv && w.errNilGuard(rel, s, update), rel, "lease lowered to next only after the write-back committed", s, "Release changes the in-memory lease otherwise than `seq.leased = seq.next` after a successful Update")
+	}
+	// GetSequence
+	gsq := w.F("badger.DB.GetSequence")
+	var bwParam *types.Var
+	ps := gsq.Obj.Type().(*types.Signature).Params()
+	for i := 0; i < ps.Len(); i++ {
+		if b, ok := ps.At(i).Type().Underlying().(*types.Basic); ok && b.Kind() == types.Uint64 {
+			bwParam = ps.At(i)
+		}
+	}
+	rejected := false
+	if bwParam != nil {
+		for _, e := range gsq.allExits() {
+			rs, ok := e.Node.(*ast.ReturnStmt)
+			if !ok {
+				continue
+			}
+			if op, g := w.guardRel(w.Guards(gsq, rs), func(e ast.Expr) bool { return localOf(gsq, e) == bwParam }, w.isConst(0), true); g != nil && (op == token.EQL || op == token.LEQ) {
+				if len(rs.Results) == 2 {
+					if id, ok := unparen(rs.Results[1]).(*ast.Ident); !ok || id.Name != "nil" {
+						rejected = true
+					}
+				}
+			}
+		}
+	}
+	r.Check(rejected, gsq, "zero bandwidth refused", nil, "GetSequence no longer returns an error for bandwidth == 0")
+	for _, o := range allStores(w, bwF) {
+		r.Check(false, o.SiteFn, "bandwidth fixed at construction", o.Node, "Sequence.bandwidth is assigned after construction")
+	}
+}
+
 func propC30(c *Check) {
 	ruleR30_1(c)
 	ruleR30_2(c)
 	ruleR30_3(c)
 	ruleR30_4(c)
+	ruleR30_5(c)
 }
 
 // ---- C31 ----
